@@ -44,6 +44,35 @@ Theorem C15_nonconforming_rejected : forall cl t v,
 Proof. exact nonconforming_rejected. Qed.
 Print Assumptions C15_nonconforming_rejected.
 
+(* a parameter with a checker (Annotated[T, Choices([...])], any Checker): the type coerces,
+   then the checker looks at the coerced value; what is stored is the COERCED value - a value
+   of the declared type - never the caller's raw value                                      *)
+Theorem C15_checked_value_is_coerced : forall cl d v v',
+  arg_validate cl d v = Ok v' ->
+  validate cl (a_ty d) v = Ok v' /\ check_ok (a_checker d) v' = true /\ has_type cl v' (a_ty d).
+Proof. exact arg_validate_coerced. Qed.
+Print Assumptions C15_checked_value_is_coerced.
+
+Theorem C15_checker_accepts : forall cl d v v',
+  coerced cl (a_ty d) v v' -> check_ok (a_checker d) v' = true -> arg_validate cl d v = Ok v'.
+Proof. exact arg_validate_accepts. Qed.
+Print Assumptions C15_checker_accepts.
+
+Theorem C15_checker_refuses : forall cl d v v',
+  validate cl (a_ty d) v = Ok v' -> check_ok (a_checker d) v' = false -> arg_validate cl d v = Err.
+Proof. exact arg_validate_checker_refuses. Qed.
+Print Assumptions C15_checker_refuses.
+
+(* what an assignment stores: None only for a parameter declared Optional (a default does
+   not make None a value of the parameter); anything else is the coerced value, and its
+   checker accepted it                                                                    *)
+Theorem C15_assign_stored : forall cl d sealed v v',
+  assign cl d sealed false v = Ok v' ->
+  (v = VNone /\ v' = VNone /\ a_optional d = true /\ a_required d = false) \/
+  (v <> VNone /\ validate cl (a_ty d) v = Ok v' /\ check_ok (a_checker d) v' = true).
+Proof. exact assign_stored. Qed.
+Print Assumptions C15_assign_stored.
+
 (* config.k = v either raises and leaves the configuration as it was, or stores a
    value of the declared type (None only for a non-required parameter) under k
    and changes nothing else                                                      *)
@@ -58,11 +87,13 @@ Theorem C15_assign_stores_or_raises : forall cl n k v n' o,
 Proof. exact assign_stores_or_raises. Qed.
 Print Assumptions C15_assign_stores_or_raises.
 
-(* a conforming value given to a writable parameter reads back equal *)
+(* a conforming value (that its checker, if any, accepts) given to a writable parameter reads
+   back equal; None only where the parameter is declared Optional                        *)
 Theorem C15_readback : forall cl n k d v,
   nth_error (class_args cl (n_cls n)) k = Some d ->
   n_sealed n = false -> a_generated d = false -> a_constant d = false ->
-  arg_has_type cl d v ->
+  (v = VNone /\ a_required d = false /\ a_optional d = true) \/
+  (has_type cl v (a_ty d) /\ check_ok (a_checker d) v = true) ->
   exists n', cfg_set cl n k v = (n', Stored) /\ cfg_get n' k = Some v.
 Proof. exact readback. Qed.
 Print Assumptions C15_readback.
@@ -82,7 +113,7 @@ Print Assumptions C15_new_typed.
 Theorem C15_new_default_coerced : forall cl defs c n i d dv x,
   cfg_new cl defs c [] = Ok n ->
   nth_error (class_args cl c) i = Some d -> nth_error defs i = Some (Some dv) ->
-  dv <> VNone -> coerced cl (a_ty d) dv x ->
+  dv <> VNone -> coerced cl (a_ty d) dv x -> check_ok (a_checker d) x = true ->
   cfg_get n i = Some x.
 Proof. exact new_default_coerced. Qed.
 Print Assumptions C15_new_default_coerced.
@@ -91,7 +122,7 @@ Print Assumptions C15_new_default_coerced.
 Theorem C15_new_default_as_assigned : forall cl defs c n i d dv n0,
   cfg_new cl defs c [] = Ok n ->
   nth_error (class_args cl c) i = Some d -> nth_error defs i = Some (Some dv) ->
-  a_generated d = false -> a_constant d = false ->
+  dv <> VNone -> a_generated d = false -> a_constant d = false ->
   n_cls n0 = c -> n_sealed n0 = false ->
   exists n1, cfg_set cl n0 i dv = (n1, Stored) /\ cfg_get n1 i = cfg_get n i.
 Proof. exact new_default_as_assigned. Qed.
@@ -139,13 +170,14 @@ Proof. exact session_missing_rejected. Qed.
 Print Assumptions C15_session_missing_rejected.
 
 (* "before any job is registered", derived: whatever the submit, every state it goes
-   through has the registry it started with, or has gained the task - and then the
-   validation of that state answers VOk                                              *)
+   through has the registry it started with, or has gained the task - and then the validation
+   of the task with its new init tasks has answered VOk                                              *)
 Theorem C15_registered_only_after_validation : forall rb cl s root init tr v,
   submit_trace rb cl s root init = (tr, v) ->
   Forall (fun s' => s_reg s' = s_reg s \/
                     (s_reg s' = s_reg s ++ [root] /\ v = Accepted /\
-                     exists vis, cfg_validate cl (s_heap s') root = Some (VOk vis))) tr.
+                     exists n vis, nth_error (s_heap s) root = Some n /\
+                       cfg_validate cl (s_heap (begin_submit s root n init)) root = Some (VOk vis))) tr.
 Proof. exact registered_only_after_validation. Qed.
 Print Assumptions C15_registered_only_after_validation.
 
@@ -158,6 +190,17 @@ Theorem C15_session_complete_accepted : forall rb cl s root init n,
   exists s', sess_step_gen rb cl s (OSubmit root init) = (s', Accepted) /\ s_reg s' = s_reg s ++ [root].
 Proof. exact session_complete_accepted. Qed.
 Print Assumptions C15_session_complete_accepted.
+
+(* instantiating validates as well: with a required value missing below it a configuration
+   cannot be instantiated, and nothing is sealed.  (Sealed configurations are walked like
+   the others by every validation: a loaded configuration is sealed without having been
+   validated, a task instantiated before submit gets its init tasks afterwards - examples
+   loaded_incomplete_rejected, presealed_task_incomplete_init_rejected.)                  *)
+Theorem C15_instance_missing_rejected : forall rb cl s root m,
+  reach objs cl (s_heap s) root m -> lacks_required cl (s_heap s) m ->
+  sess_step_gen rb cl s (OInstance root) = (s, Rejected).
+Proof. exact instance_missing_rejected. Qed.
+Print Assumptions C15_instance_missing_rejected.
 
 (* repaired code (fixes/C15-4): a call that raises - a rejected submit in particular -
    leaves every object, every job flag and the registry as they were                  *)
@@ -228,3 +271,9 @@ Theorem C15_bool_accepts_anything_refuted : exists cl v v',
   validate_prefix cl TBool (VStr "no") = Ok (VBool true).
 Proof. exact bool_accepts_anything_refuted. Qed.
 Print Assumptions C15_bool_accepts_anything_refuted.
+
+(* the code before fixes/C15-7: x: Param[int] = 3 (not Optional) assigned None holds None *)
+Theorem C15_none_for_defaulted_refuted : exists cl d v',
+  a_optional d = false /\ assign_prefix cl d false false VNone = Ok v' /\ ~ has_type cl v' (a_ty d).
+Proof. exact none_for_defaulted_refuted. Qed.
+Print Assumptions C15_none_for_defaulted_refuted.
